@@ -235,6 +235,22 @@ def run(ctx):
         dens = r.choice([0.1, 0.2, 0.3, 0.45])
         cg = tuple(tuple(WALL if r.random() < dens else FLOOR for _ in range(w)) for _ in range(h))
         if r.random() < 0.3:
+            # occluders come in BARS (three or four opaque cells in a row or column, like real walls): the inner cells of a bar seen edge-on are hidden
+            # opaque cells between visible opaque ones
+            rows = [[FLOOR] * w for _ in range(h)]
+            for _b in range(r.randint(1, 4)):
+                ln = r.choice([3, 3, 4])
+                if r.random() < 0.5 and w >= ln:
+                    y0, x0 = r.randrange(h), r.randrange(w - ln + 1)
+                    for i in range(ln):
+                        rows[y0][x0 + i] = WALL
+                elif h >= ln:
+                    y0, x0 = r.randrange(h - ln + 1), r.randrange(w)
+                    for i in range(ln):
+                        rows[y0 + i][x0] = WALL
+            cg = tuple(tuple(row) for row in rows)
+            ctx.count('medium view occluders', 'bars')
+        if r.random() < 0.3:
             # occluders that are not walls: closed / locked doors block vision, open doors do not (opacity is a property of the INSTANCE);
             # no wall anywhere in the view
             CL, LK, OP = (gen.TY['Door'], 1, 2, None), (gen.TY['Door'], 2, 4, None), (gen.TY['Door'], 0, 1, None)
@@ -258,7 +274,8 @@ def run(ctx):
             ctx.violation(f'{name}: a visible cell has no chain of adjacent transparent visible cells to the agent', case)
         unseen = [(y, x) for y in range(h) for x in range(w) if (y, x) not in set(got[1])]
         r.shuffle(unseen)
-        for q in unseen[:3]:
+        unseen.sort(key=lambda q: not wire.mkobj(cg[q[0]][q[1]]).blocks_vision)        # hidden OPAQUE cells first: their opacity is what must not matter
+        for q in unseen[:4]:
             opaque_here = wire.mkobj(cg[q[0]][q[1]]).blocks_vision
             flipped = gen.set_cell(cg, q, FLOOR if opaque_here else r.choice([WALL, (gen.TY['Door'], 1, 2, None)]))
             got2 = mask_of(name, flipped, pos)
